@@ -158,11 +158,12 @@ Definition decide (cp : comm -> Z) (xs : pstate) (l : list xpost) : res (list pl
    its state mark and its () or [] *)
 Definition account_width (name_lens : list Z) : Z := fold_left Z.max name_lens 36.
 
-(* number of blanks between the account name and what follows on the line (the amount; for a
-   posting without amount text: trailing blanks).  amt_len = 0 stands for "no amount text" *)
+(* number of blanks between the account name and the amount.  amt_len = 0 stands for "no amount text"
+   (print leaves the second amount of a simple pair out): nothing follows the name, not even the top-up
+   blanks (print.cc `! amt.empty() &&`, repaired in /repo 73eebeb, finding F50) *)
 Definition sep_blanks (width name_len amt_len : Z) : Z :=
   let slip := width - name_len in
-  if amt_len =? 0 then (if slip <? 2 then slip + (2 - slip) else 0)
+  if amt_len =? 0 then 0
   else
     let amt_slip := Z.max 0 (12 - amt_len) in
     slip + (if slip + amt_slip <? 2 then 2 - (slip + amt_slip) else 0) + amt_slip.
